@@ -31,7 +31,12 @@ import (
 // ParsePortionSpecific) whose reduced numerators are large (up to ~2^27).
 // Oracle: parts sum to amount; part_i = floor(amount*p_i) + [i < leftover].
 //
-// VM-level leg (c24vmLeg, runs first): Allocate's result only reaches a user through the
+// Spelling leg (c24spellLeg, c24spell.go, runs first): every TEXT of the PORTION token over a
+// bounded digit-string grammar (percent I[.F]%, fraction N/D; leading zeros, trailing zeros,
+// percents below 1%), read independently in base ten, against ParsePortionSpecific and,
+// as allotment literal / `portion` variable / metadata portion, against the postings.
+//
+// VM-level leg (c24vmLeg, runs next): Allocate's result only reaches a user through the
 // machine (OP_MAKE_ALLOTMENT, OP_ALLOC, then OP_TAKE/OP_SEND), so every vector of length
 // <= 3 (4 in the thorough tier) over a smaller menu - zero portions at every position,
 // `remaining` resolving to 0, portion variables bound to any value of the menu - is also
@@ -166,6 +171,8 @@ func c24() int {
 
 	// The VM-level leg runs first: it is the smaller space, and a budget cut on a
 	// loaded machine must shorten the direct leg's depth, not drop a whole dimension.
+	// The spelling leg (c24spell.go) is smaller still and goes before it.
+	spCov, spSamples := c24spellLeg(r, &exhaustive)
 	vmCov, vmSamples := c24vmLeg(r, &exhaustive)
 
 	checkVector := func(portions []machine.Portion, desc string) {
@@ -492,13 +499,14 @@ func c24() int {
 		byClass[clsName[c]] = clsCount[c].Load()
 	}
 	cov := ev.Coverage{
-		"evaluations":          evals.Load() + vmCov["runs"].(int64),
+		"evaluations":          evals.Load() + vmCov["runs"].(int64) + spCov["runs"].(int64) + spCov["texts_parsed"].(int64),
 		"allocate_evaluations": evals.Load(),
 		"vm_leg":               vmCov,
+		"spelling_leg":         spCov,
 		"distinct_nontrivial":  distinctN.Load(),
-		"rule": vmCov["rule"].(string) + "; on Allotment.Allocate directly: " + fmt.Sprintf("(A) all portion vectors of length<=%d over rationals n/d, d<=%d (%d values, zero included), summing to 1 or <1 with `remaining` at every position; (B) %d vectors over the percent literals %v parsed by ParsePortionSpecific: [p remaining], [remaining p], [p 1-p], [p q remaining] with `remaining` at every position for every ordered pair p+q<=1, [p q] when p+q=1; every vector x %d fixed amounts (0..%d; 2^e-1..2^e+1 for e in %v; 2^64-1..2^64+9; 10^30-1..10^30+9; real-world %v) + its own straddling amounts floor(T/n), floor(T/n)+1 for every numerator n of the resolved vector and T = 2^e, e in %v (those not already in the fixed menu); distinct_nontrivial = distinct resolved vectors allocated with a positive amount",
+		"rule": spCov["rule"].(string) + "; " + vmCov["rule"].(string) + "; on Allotment.Allocate directly: " + fmt.Sprintf("(A) all portion vectors of length<=%d over rationals n/d, d<=%d (%d values, zero included), summing to 1 or <1 with `remaining` at every position; (B) %d vectors over the percent literals %v parsed by ParsePortionSpecific: [p remaining], [remaining p], [p 1-p], [p q remaining] with `remaining` at every position for every ordered pair p+q<=1, [p q] when p+q=1; every vector x %d fixed amounts (0..%d; 2^e-1..2^e+1 for e in %v; 2^64-1..2^64+9; 10^30-1..10^30+9; real-world %v) + its own straddling amounts floor(T/n), floor(T/n)+1 for every numerator n of the resolved vector and T = 2^e, e in %v (those not already in the fixed menu); distinct_nontrivial = distinct resolved vectors allocated with a positive amount",
 			maxLen, maxDen, len(menu), len(pvecs), literals, len(amounts), maxAmt, bandExps, realWorld, thresholdExps),
-		"samples":                                   append(samples.List(), vmSamples...),
+		"samples":                                   append(append(samples.List(), vmSamples...), spSamples...),
 		"vectors":                                   vectors.Load(),
 		"cases_with_leftover":                       leftoverCases.Load(),
 		"percent_literal_vectors":                   percentVectors.Load(),
@@ -512,6 +520,7 @@ func c24() int {
 	}
 	_ = os.Stdout
 	return r.Finish(cov, []string{
+		"leg (S) reads a portion text in base ten (the language has no other base: NUMBER tokens and monetary amounts are decimal); the value leg (B) uses for a percent literal is still the parser's own, (S-parse) is what compares the parser with the text",
 		"legs (A) and (B) call Allocate directly on machine.Allotment built by NewAllotment; compiler-level rejection of non-100% allotments is exercised by C22's program space",
 		"leg (VM) drives the machine runtime only (internal/machine: compiler.Compile + vm.Machine with the call sequence of MachineNumscriptRuntimeAdapter.Execute) on an in-memory store where every account holds 10^40 of every asset; a part is what the postings move to the portion's own destination account / take from its own source account (a zero-amount posting and no posting are the same part: 0)",
 		"the interpreter runtime (github.com/formancehq/numscript, experimental feature) does not use internal/machine's Allotment/OP_ALLOC: it is outside C24's anchors; its agreement with the machine on the shared language is C26's matter",
